@@ -26,10 +26,7 @@ func (e *Engine) verifyFunc(fn *ssa.Function, ct *Contract, slice map[string]boo
 	st := vc.entry.clone()
 
 	var args []Val
-	te := vc.newTEnv(st, vc.entry, fn.Pkg)
-	if te.pkg == nil && fn.Origin() != nil {
-		te.pkg = fn.Origin().Pkg
-	}
+	te := vc.newTEnv(st, vc.entry, e.pkgOfFn(fn))
 	for i, p := range fn.Params {
 		name := p.Name()
 		if ct != nil && i < len(ct.Params) {
